@@ -441,7 +441,7 @@ func childGen(r *mon.Run, shard int) {
 			enc := checkValue(r, tg, idx)
 			r.Distinct("value", []byte(tg.Name), enc)
 			runBytesAll(r, enc, []*target{tg, iface, raw}, byteOpts{origin: "valid", nJunk: 4})
-			if idx < 6 && ti%9 == 0 {
+			if idx < 1 && ti%14 == 0 {
 				r.Sample(Case{Mode: "value", Type: tg.Name, Index: idx, Input: enc})
 			}
 			if idx < nMut {
@@ -478,7 +478,7 @@ func childGen(r *mon.Run, shard int) {
 				checkReader(r, tg, b, "hostile")
 			}
 		}
-		if i < 4 {
+		if i < 2 {
 			r.Sample(Case{Mode: "bytes", Type: "*", Input: b, Origin: "hostile"})
 		}
 		unitDone(r)
